@@ -267,6 +267,7 @@ func (h *c10mH) apply(label string) bool {
 	staleAtStart := k.extDirty || k.mapViewStale
 	readsAtStart := k.reads
 	k.injRunFired, k.injAfterCommit, k.natRunFailed, k.injListRulesFired, k.injListFired, k.raceFired, k.runsOK = 0, 0, 0, 0, 0, 0, 0
+	k.freshListAllFails = 0
 	var pv any
 	func() {
 		defer func() { pv = recover() }()
@@ -286,7 +287,7 @@ func (h *c10mH) apply(label string) bool {
 		}
 		switch {
 		case strings.Contains(msg, "giving up after retries"):
-			if k.injRunFired+allowedNatural < 11 {
+			if k.injRunFired+k.freshListAllFails+allowedNatural < 11 {
 				h.fail("Apply gave up (%s) although only %d transaction failures were injected (%d more failed on their own; interference: %v)", msg, k.injRunFired, k.natRunFailed, envTrouble)
 			}
 		case strings.Contains(msg, "command failed after retries"):
